@@ -108,15 +108,27 @@ class Ref:
         b = np.broadcast_to(other.expand(scope, card), [card[v] for v in scope])
         with np.errstate(divide="ignore", invalid="ignore"):
             out = fn(a, b)
-        return Ref(scope, out, tainted=self.undefined_input() or other.undefined_input())
+            cancel = fn is np.add and _cancels(out, np.abs(a) + np.abs(b))
+        return Ref(scope, out, tainted=self.undefined_input() or other.undefined_input() or cancel)
 
     def reduce_axes(self, vs, how):
         axes = tuple(self.scope.index(v) for v in vs)
         arr = self.arr.sum(axis=axes) if how == "sum" else self.arr.max(axis=axes)
-        return Ref([v for v in self.scope if v not in vs], arr, tainted=self.undefined_input())
+        with np.errstate(invalid="ignore"):
+            cancel = how == "sum" and _cancels(arr, np.abs(self.arr).sum(axis=axes))
+        return Ref([v for v in self.scope if v not in vs], arr, tainted=self.undefined_input() or cancel)
 
     def copy(self):
         return Ref(self.scope, self.arr.copy(), tainted=self.tainted)
+
+
+def _cancels(total, abs_total):
+    """Signed factors: a sum whose terms cancel (|sum| below 1e-6 of the sum of magnitudes, zero included) is known only up to the
+    rounding of the terms - 0 in one summation order, 1e-17 in another - and whatever is computed from it (a quotient above all) is
+    not defined cell by cell; the result is followed structurally (taint), like arithmetic on infinities."""
+    t, a = np.asarray(total, dtype=float), np.asarray(abs_total, dtype=float)
+    with np.errstate(invalid="ignore"):
+        return bool(np.any((a > 0) & np.isfinite(a) & (np.abs(t) <= 1e-6 * a)))
 
 
 def _div(a, b):
@@ -271,7 +283,7 @@ def execute(case, ctx):
                     result = (a.reduce(vals, inplace=False), rres)
             elif k == "normalize":
                 tot = ra.arr.sum()
-                if tot <= 0:
+                if tot <= 0 or _cancels(tot, np.abs(ra.arr).sum()):
                     continue
                 rres = Ref(ra.scope, ra.arr / tot, tainted=ra.undefined_input())
                 if op["inplace"]:
@@ -282,7 +294,8 @@ def execute(case, ctx):
             elif k == "scalar":
                 c = op["c"]
                 fn = op["fn"]
-                rres = Ref(ra.scope, ra.arr * c if "mul" in fn else ra.arr + c, tainted=ra.undefined_input())
+                rres = Ref(ra.scope, ra.arr * c if "mul" in fn else ra.arr + c,
+                           tainted=ra.undefined_input() or ("add" in fn and _cancels(ra.arr + c, np.abs(ra.arr) + abs(c))))
                 if op["inplace"] and fn in ("mul", "add"):
                     # scalar operand, in place: works on the value buffer itself
                     getattr(a, "product" if fn == "mul" else "sum")(c, inplace=True)
@@ -399,7 +412,15 @@ def _eq_probe(ctx, u, names, a, ra, rr):
     perm_axes = shuffled(rr, sc)
     # state order permutation per variable
     sperm = {v: shuffled(rr, range(u["card"][v])) for v in sc}
-    arr = ra.arr
+    # the twin carries the factor's OWN values (not the reference's): the clause is about axis and state order, and a factor that
+    # went through single-precision or cancelling arithmetic differs from the float64 reference by more than the == tolerance
+    try:
+        _lv, arr = factor_to_logical(a, names, expect_vars=sc)
+        arr = np.asarray(arr, dtype=float)
+    except Mismatch:
+        return
+    if arr.shape != ra.arr.shape or not np.all(np.isfinite(arr)):
+        return
     for ax, v in enumerate(sc):
         arr = np.take(arr, sperm[v], axis=ax)
     arr = np.transpose(arr, [sc.index(v) for v in perm_axes])
